@@ -4,6 +4,7 @@ import (
 	"context"
 	"encoding/json"
 	"fmt"
+	"github.com/VolantMQ/vlapi/mqttp"
 	"io"
 	"net"
 	"net/http"
@@ -35,6 +36,8 @@ type c17Case struct {
 	// PONGs are written by the broker's reading side): what the client receives is a sequence of whole frames
 	Out     int `json:"out,omitempty"`
 	OutSize int `json:"outsize,omitempty"`
+	// kind "empties": against the whole server - Empties empty binary frames, then a CONNECT in one frame: it is answered
+	Empties int `json:"empties,omitempty"`
 }
 
 type c17Read struct {
@@ -261,6 +264,9 @@ func (p *c17Prop) Run(ci interface{}) interface{} {
 	if c.Kind == "out" {
 		return p.runOut(c)
 	}
+	if c.Kind == "empties" {
+		return p.runEmpties(c)
+	}
 	s := &c17Session{sizes: c.Sizes, report: make(chan c17Read, 1024), done: make(chan struct{})}
 	p.pending <- s
 	d := gws.Dialer{Protocols: []string{"mqtt"}, Timeout: 5 * time.Second}
@@ -338,6 +344,51 @@ func (p *c17Prop) Run(ci interface{}) interface{} {
 			handlerDone = true
 		}
 	}
+	return obs
+}
+
+func (p *c17Prop) runEmpties(c *c17Case) interface{} {
+	obs := &c17Obs{}
+	_, srv, cleanup, msg := newLisServerCT(5)
+	if msg != "" {
+		obs.Err = msg
+		return obs
+	}
+	defer cleanup.f()
+	defer func() { _ = srv.Shutdown() }()
+	port := freePort()
+	if err := srv.ListenAndServe(transport.NewConfigWS(&transport.Config{AuthManager: cleanup.am, Host: "127.0.0.1", Port: port})); err != nil {
+		obs.Err = "listener: " + err.Error()
+		return obs
+	}
+	var conn net.Conn
+	var err error
+	for k := 0; k < 100; k++ {
+		d := gws.Dialer{Protocols: []string{"mqtt"}, Timeout: 2 * time.Second}
+		if conn, _, _, err = d.Dial(context.Background(), "ws://127.0.0.1:"+port+"/"); err == nil {
+			break
+		}
+		time.Sleep(20 * time.Millisecond)
+	}
+	if err != nil {
+		obs.Err = "dial: " + err.Error()
+		return obs
+	}
+	defer conn.Close()
+	for k := 0; k < c.Empties; k++ {
+		if err := wsutil.WriteClientBinary(conn, nil); err != nil {
+			obs.Err = "write: " + err.Error()
+			return obs
+		}
+	}
+	cp := mqttp.NewConnect(mqttp.ProtocolV311)
+	cp.SetClean(true)
+	_ = cp.SetClientID([]byte("e"))
+	raw, _ := mqttp.Encode(cp)
+	_ = wsutil.WriteClientBinary(conn, raw)
+	_ = conn.SetReadDeadline(time.Now().Add(3 * time.Second))
+	b, _, err := wsutil.ReadServerData(conn)
+	obs.Accepted = err == nil && len(b) >= 4 && b[0]>>4 == 2 && b[3] == 0
 	return obs
 }
 
@@ -468,6 +519,9 @@ func (p *c17Prop) Coq(ci interface{}, oi interface{}) string {
 	if c.Kind == "handshake" {
 		return fmt.Sprintf("(CHandshake %s %s)", cBytes([]byte(c.Proto)), cBool(o.Accepted))
 	}
+	if c.Kind == "empties" {
+		return fmt.Sprintf("(CEmpties %s %s)", cNat(c.Empties), cBool(o.Accepted && o.Err == ""))
+	}
 	if c.Kind == "out" {
 		return fmt.Sprintf("(COut %s %s %s %s)", cNat(c.Out), cNat(c.OutSize), cNat(o.OutBytes), cBool(o.OutBad == "" && o.Err == ""))
 	}
@@ -499,6 +553,9 @@ func (p *c17Prop) Class(ci interface{}, oi interface{}) (string, bool) {
 	}
 	if c.Kind == "out" {
 		return "outbound-under-pings", true
+	}
+	if c.Kind == "empties" {
+		return "empty-frames-then-connect", true
 	}
 	big, exact := false, false
 	for i, f := range c.Frames {
